@@ -184,3 +184,63 @@ func writeAnchors(path string) error {
 	}
 	return os.WriteFile(path, append(b, '\n'), 0o644)
 }
+
+
+// ---- fields: a renamed struct field is recognised by its type and position in the struct
+
+func fieldTypeString(v *types.Var) string {
+	return types.TypeString(v.Type(), func(p *types.Package) string { return p.Name() })
+}
+
+func (p *Program) recordFieldAnchor(pkgRel, typeName, field string, st *types.Struct, idx int) {
+	anchorRecorded[pkgRel+"|"+typeName+"#"+field] = anchorRec{Recv: typeName, Sig: fieldTypeString(st.Field(idx)), Refs: []string{fmt.Sprint(idx)}}
+}
+
+func (p *Program) resolveRenamedField(pkgRel, typeName, field string, st *types.Struct) *types.Var {
+	loadAnchorTable()
+	rec, ok := anchorTable[pkgRel+"|"+typeName+"#"+field]
+	if !ok {
+		return nil
+	}
+	// names of this struct's other anchored fields that still exist are not candidates
+	taken := map[string]bool{}
+	for k := range anchorTable {
+		pre := pkgRel + "|" + typeName + "#"
+		if strings.HasPrefix(k, pre) {
+			taken[strings.TrimPrefix(k, pre)] = true
+		}
+	}
+	var cands []*types.Var
+	var atIndex *types.Var
+	for i := 0; i < st.NumFields(); i++ {
+		f := st.Field(i)
+		if taken[f.Name()] || fieldTypeString(f) != rec.Sig {
+			continue
+		}
+		cands = append(cands, f)
+		if len(rec.Refs) == 1 && rec.Refs[0] == fmt.Sprint(i) {
+			atIndex = f
+		}
+	}
+	var pick *types.Var
+	if len(cands) == 1 {
+		pick = cands[0]
+	} else if atIndex != nil {
+		pick = atIndex
+	}
+	if pick == nil {
+		return nil
+	}
+	note := fmt.Sprintf("anchor %s.%s.%s no longer exists under that name; using field %s (same struct, same type)", pkgRel, typeName, field, pick.Name())
+	seen := false
+	for _, n := range anchorNotes {
+		if n == note {
+			seen = true
+		}
+	}
+	if !seen {
+		anchorNotes = append(anchorNotes, note)
+		fmt.Fprintln(os.Stderr, "NOTE: "+note)
+	}
+	return pick
+}
